@@ -101,6 +101,143 @@ def specPath (top : Node) (r : Ref) : Option (List Step) :=
     | .ns j => (n.nss[j]?).map fun a => steps ++ [.ns a.1]
   | _, _ => none
 
+/-! ### the text of a path: recogniser for the output language of F&O 3.1 §14.6
+
+`/` | (`/` step)+ | `Q{http://www.w3.org/2005/xpath-functions}root()` (`/` step)*, with
+step = `Q{uri}local[n]` | `text()[n]` | `comment()[n]` | `processing-instruction(target)[n]` |
+`@local` | `@Q{uri}local` | `namespace::prefix` | `namespace::*[Q{…}local-name()=""]`, `n` a decimal
+numeral without leading zeros.  A braced URI ends at the first `}` (XPath 3.1 BracedURILiteral:
+`Q{ [^{}]* }`), an element local name at `[`, a PI target at `)`, an attribute name / prefix at the
+next `/` or the end.  The recogniser is independent of the generators; `EPV.C14.parse_render_*`
+show that it reads the generated text back to the steps. -/
+
+def stripPrefix : List Char → List Char → Option (List Char)
+  | [], cs => some cs
+  | _ :: _, [] => none
+  | p :: ps, c :: cs => if p = c then stripPrefix ps cs else none
+
+/-- the characters before the first `c`, and the rest (starting with that `c`, or empty) -/
+def upTo (c : Char) : List Char → List Char × List Char
+  | [] => ([], [])
+  | x :: xs => if x = c then ([], x :: xs) else ((upTo c xs).1.cons x, (upTo c xs).2)
+
+def digitVal (c : Char) : Nat := c.toNat - 48
+
+/-- canonical decimal numeral -/
+def parseNat (cs : List Char) : Option Nat :=
+  let n := cs.foldl (fun a c => a * 10 + digitVal c) 0
+  if natDec n = cs then some n else none
+
+/-- `n]` -/
+def parsePos (cs : List Char) : Option (Nat × List Char) :=
+  match (upTo ']' cs).2 with
+  | ']' :: r => (parseNat (upTo ']' cs).1).map fun n => (n, r)
+  | _ => none
+
+def parseChild (r : List Char) : Option (Step × List Char) :=
+  match (upTo '}' r).2 with
+  | '}' :: r2 =>
+    match (upTo '[' r2).2 with
+    | '[' :: r4 =>
+      (parsePos r4).map fun x =>
+        (.child ⟨String.ofList (upTo '}' r).1, String.ofList (upTo '[' r2).1⟩ x.1, x.2)
+    | _ => none
+  | _ => none
+
+def parsePI (r : List Char) : Option (Step × List Char) :=
+  match (upTo ')' r).2 with
+  | ')' :: '[' :: r2 => (parsePos r2).map fun x => (.pi (String.ofList (upTo ')' r).1) x.1, x.2)
+  | _ => none
+
+def parseAttrQ (r : List Char) : Option (Step × List Char) :=
+  match (upTo '}' r).2 with
+  | '}' :: r2 => some (.attr ⟨String.ofList (upTo '}' r).1, String.ofList (upTo '/' r2).1⟩, (upTo '/' r2).2)
+  | _ => none
+
+def parseStep (cs : List Char) : Option (Step × List Char) :=
+  match stripPrefix ['Q', '{'] cs with
+  | some r => parseChild r
+  | none =>
+  match stripPrefix litText cs with
+  | some r => (parsePos r).map fun x => (.text x.1, x.2)
+  | none =>
+  match stripPrefix litComment cs with
+  | some r => (parsePos r).map fun x => (.comment x.1, x.2)
+  | none =>
+  match stripPrefix litPI cs with
+  | some r => parsePI r
+  | none =>
+  match stripPrefix ['@', 'Q', '{'] cs with
+  | some r => parseAttrQ r
+  | none =>
+  match stripPrefix ['@'] cs with
+  | some r => some (.attr ⟨"", String.ofList (upTo '/' r).1⟩, (upTo '/' r).2)
+  | none =>
+  match stripPrefix (litNs ++ emptyNamePathC) cs with
+  | some r => some (.ns "", r)
+  | none =>
+  match stripPrefix litNs cs with
+  | some r => some (.ns (String.ofList (upTo '/' r).1), (upTo '/' r).2)
+  | none => none
+
+/-- (`/` step)* with fuel -/
+def parseSteps : Nat → List Char → Option (List Step)
+  | _, [] => some []
+  | 0, _ :: _ => none
+  | f + 1, c :: cs =>
+    if c = '/' then
+      match parseStep cs with
+      | some (s, r) => (parseSteps f r).map (s :: ·)
+      | none => none
+    else none
+
+inductive PathKind where
+  | abs        -- starts at the document node: `/…`
+  | fromRoot   -- starts at `root()`
+  deriving DecidableEq, Repr
+
+def parsePath (cs : List Char) : Option (PathKind × List Step) :=
+  if cs = ['/'] then some (.abs, [])
+  else
+    match stripPrefix litRoot cs with
+    | some r => (parseSteps r.length r).map fun st => (.fromRoot, st)
+    | none =>
+      match cs with
+      | [] => none
+      | _ => (parseSteps cs.length cs).map fun st => (.abs, st)
+
+/-- value of a path *text* in the tree rooted at `top` (absolute form: `top` is the document /
+dummy document; `root()` form: `top` is the root node) -/
+def evalText (top : Node) (text : String) : List Ref :=
+  match parsePath text.toList with
+  | some (_, steps) => evalSteps top steps
+  | none => []
+
+/-! names for which the text is unambiguous: every NCName qualifies (no `/ [ ) { } *`), and every
+namespace URI without `}` -/
+
+def okName (s : String) : Bool := s.toList.all fun c => !(c = '/' || c = '[' || c = ')' || c = '{' || c = '}' || c = '*')
+def okUri (s : String) : Bool := s.toList.all fun c => !(c = '}')
+
+def Step.ok : Step → Bool
+  | .child nm _ => okUri nm.ns && okName nm.loc
+  | .pi t _ => okName t
+  | .attr nm => okUri nm.ns && okName nm.loc
+  | .ns p => okName p
+  | _ => true
+
+mutual
+def Node.namesOK : Node → Bool
+  | .elem nm nss attrs kids =>
+    okUri nm.ns && okName nm.loc && nss.all (fun a => okName a.1)
+      && attrs.all (fun a => okUri a.1.ns && okName a.1.loc) && namesOKList kids
+  | .pi t => okName t
+  | _ => true
+def namesOKList : List Node → Bool
+  | [] => true
+  | n :: ns => n.namesOK && namesOKList ns
+end
+
 /-! ### well-formedness (XML Namespaces §6.3 attribute uniqueness; a prefix is bound once per
 element — in the implementation both come out of Python dicts) -/
 
